@@ -53,7 +53,7 @@ def main():
     na = []
     for i in range(1, 21):
         pid = "C%02d" % i
-        if pid in CLAIMS and pid not in pending.get("withdrawn", {}):
+        if pid in CLAIMS and pid in pending.get("ready", []) and pid not in pending.get("withdrawn", {}):
             c = CLAIMS[pid]
             checks.append({
                 "property_id": pid,
